@@ -1,13 +1,13 @@
 (* C15, converse direction: constant values (ConstValue::parse with nested lists and maps) read backwards. *)
 From PVIdl Require Import Comb Ast Parser Print Proofs.Total Proofs.RoundTok Proofs.RoundPath Proofs.RoundAnn Proofs.RoundTy
-  Proofs.RoundKit Proofs.RoundNum Proofs.RoundConst Proofs.InvKit Proofs.InvTok Proofs.InvTy Proofs.InvNum.
+  Proofs.RoundKit Proofs.Lex Proofs.RoundNum Proofs.RoundConst Proofs.InvKit Proofs.InvTok Proofs.InvTy Proofs.InvNum.
 From Coq Require Import ZifyN ZifyNat ZifyBool.
 From Coq Require String.
 Import String.StringSyntax.
 Open Scope nat_scope.
 
 (* the exclusion for constant values: a path constant whose first segment is true / false (the parser reads it as a path
-   only when a non-ASCII letter follows the word), and two adjacent values that the grammar would have to set off *)
+   only when a non-ASCII letter follows the word) *)
 Fixpoint cok_const (v : cconst) : bool :=
   match v with
   | CCPath p => negb (bytes_in (cp_head p) [txt "true"; txt "false"])
@@ -18,17 +18,24 @@ Fixpoint cok_const (v : cconst) : bool :=
 with cok_clist (l : clist) : bool :=
   match l with
   | CLNil => true
-  | CLCons v b s rest => cok_const v && glue_ok v b s (clist_starts_word rest) (clist_starts_dot rest) && cok_clist rest
+  | CLCons v b s rest => cok_const v && cok_clist rest
   end
 with cok_cmapl (l : cmapl) : bool :=
   match l with
   | CMNil => true
   | CMCons key b1 b2 v b3 s rest =>
-    cok_const key && cok_const v && glue_ok v b3 s (cmapl_starts_word rest) (cmapl_starts_dot rest) && cok_cmapl rest
+    cok_const key && cok_const v && cok_cmapl rest
   end.
 
 Definition constP (c : cconst) (r : list byte) : Prop :=
-  (cok_const c = true -> wf_const c = true) /\ pr_const c r <> [].
+  ((cok_const c = true -> wf_const c = true) /\ pr_const c r <> []) /\ cont_ok c r = true.
+
+(* the glue condition of an element of a list / a map, from what is known about the text that followed the element *)
+Lemma glue_of_cont v b s nxt X : lstopk X = true -> cont_ok v (pr_blank b (pr_sep s (nxt ++ X))) = true -> glue_ok v b s nxt = true.
+Proof.
+  intros HX H. destruct s as [|semi bl]; [|reflexivity]. destruct b as [|a b]; [|reflexivity].
+  cbn [glue_ok pr_blank pr_sep] in *. now rewrite (cont_ok_local v nxt X HX) in H.
+Qed.
 
 (* list elements as the loop reads them:  [blank] value [blank] [separator] *)
 Definition lel : Type := (blank * cconst * blank * csep)%type.
@@ -54,12 +61,12 @@ Proof.
   destruct (pr_lel e (b :: l)); [cbn in *; lia|discriminate].
 Qed.
 
-Lemma chain_clist es k : k <> [] -> chain pr_lel lelQ es k -> hdnil es ->
+Lemma chain_clist es k : k <> [] -> lstopk k = true -> chain pr_lel lelQ es k -> hdnil es ->
   prl pr_lel es k = pr_clist (to_clist es) k /\ (cok_clist (to_clist es) = true -> wf_clist (to_clist es) = true).
 Proof.
-  intros Hk. induction es as [|[[[bl v] b] s] es IH]; cbn [chain prl fold_right to_clist pr_clist hdnil]; intros Hc Hh.
+  intros Hk Hlk. induction es as [|[[[bl v] b] s] es IH]; cbn [chain prl fold_right to_clist pr_clist hdnil]; intros Hc Hh.
   - split; [reflexivity|reflexivity].
-  - subst bl. destruct Hc as [[[Hw Hnn] [_ [Kb [Hs [Hn _]]]]] Hc]. fold (prl pr_lel es k) in *.
+  - subst bl. destruct Hc as [[[[Hw Hnn] Hct] [_ [Kb [Hs [Hn _]]]]] Hc]. fold (prl pr_lel es k) in *.
     assert (Hh' : hdnil es).
     { destruct es as [|[[[bl' v'] b'] s'] es']; [exact I|]. cbn [chain] in Hc. destruct Hc as [[_ [_ [_ [_ [_ Hx]]]]] _].
       apply Hx. exact Hn. }
@@ -67,7 +74,7 @@ Proof.
     cbn [cok_clist wf_clist]. intros Hok. bsplit Hok.
     rewrite (Hw ltac:(assumption)), (blank_ok_nonnil _ _ Kb (pr_sep_nonnil s _ Rn)).
     rewrite (wf_sep_of s _ Hs Rn). cbn [andb].
-    match goal with H : glue_ok _ _ _ _ _ = true |- _ => rewrite H end. cbn [andb]. now apply Wr.
+    rewrite (pr_clist_app (to_clist es) k) in Hct. rewrite (glue_of_cont v b s _ k Hlk Hct). cbn [andb]. now apply Wr.
 Qed.
 
 (* map elements:  [blank] key [blank] : [blank] value [blank] [separator] *)
@@ -98,12 +105,12 @@ Proof.
   destruct (pr_mel e (b :: l)); [cbn in *; lia|discriminate].
 Qed.
 
-Lemma chain_cmapl es k : k <> [] -> chain pr_mel melQ es k -> hdnilm es ->
+Lemma chain_cmapl es k : k <> [] -> lstopk k = true -> chain pr_mel melQ es k -> hdnilm es ->
   prl pr_mel es k = pr_cmapl (to_cmapl es) k /\ (cok_cmapl (to_cmapl es) = true -> wf_cmapl (to_cmapl es) = true).
 Proof.
-  intros Hk. induction es as [|[[[[[[bl key] b1] b2] v] b3] s] es IH]; cbn [chain prl fold_right to_cmapl pr_cmapl hdnilm]; intros Hc Hh.
+  intros Hk Hlk. induction es as [|[[[[[[bl key] b1] b2] v] b3] s] es IH]; cbn [chain prl fold_right to_cmapl pr_cmapl hdnilm]; intros Hc Hh.
   - split; reflexivity.
-  - subst bl. destruct Hc as [[[Hwk _] [_ [[Hwv Hnv] [W1 [K2 [K3 [Hs [Hn _]]]]]]]] Hc]. fold (prl pr_mel es k) in *.
+  - subst bl. destruct Hc as [[[[Hwk _] _] [_ [[[Hwv Hnv] Hct] [W1 [K2 [K3 [Hs [Hn _]]]]]]]] Hc]. fold (prl pr_mel es k) in *.
     assert (Hh' : hdnilm es).
     { destruct es as [|[[[[[[bl' k'] b1'] b2'] v'] b3'] s'] es']; [exact I|]. cbn [chain] in Hc.
       destruct Hc as [[_ [_ [_ [_ [_ [_ [_ [_ Hx]]]]]]]] _]. apply Hx. exact Hn. }
@@ -112,7 +119,7 @@ Proof.
     rewrite (Hwk ltac:(assumption)), W1, (blank_ok_nonnil _ _ K2 Hnv), (Hwv ltac:(assumption)).
     rewrite (blank_ok_nonnil _ _ K3 (pr_sep_nonnil s _ Rn)).
     rewrite (wf_sep_of s _ Hs Rn). cbn [andb].
-    match goal with H : glue_ok _ _ _ _ _ = true |- _ => rewrite H end. cbn [andb]. now apply Wr.
+    rewrite (pr_cmapl_app (to_cmapl es) k) in Hct. rewrite (glue_of_cont v b3 s _ k Hlk Hct). cbn [andb]. now apply Wr.
 Qed.
 
 Section Const.
@@ -159,7 +166,8 @@ Proof.
   change (sym_clist_close ++ r) with (x5d :: r) in *.
   destruct es as [|[[[bl0 v0] b0] s0] es].
   - cbn [prl fold_right map]. exists (CCList bc CLNil). unfold constP. cbn [pr_const pr_clist erase_const erase_clist cok_const wf_const wf_clist].
-    change sym_clist_open with (txt "["). change (txt "]" ++ r) with (x5d :: r). repeat split; try discriminate.
+    change sym_clist_open with (txt "["). change (txt "]" ++ r) with (x5d :: r). split; [reflexivity|]. split; [reflexivity|].
+    split; [split; [|discriminate]|reflexivity].
     intros _. rewrite (blank_ok_nonnil _ _ Kc) by discriminate. reflexivity.
   - (* the closing blank slot is empty: the last element has read every blank *)
     assert (Ebc : bc = []).
@@ -171,14 +179,14 @@ Proof.
       destruct Kc as [Kc|[Kc _]]; [|discriminate]. pose proof (noblank_pr_blank (at0 :: bc) (x5d :: r) Kc eq_refl Hn). discriminate. }
     subst bc. cbn [pr_blank] in *.
     cbn [chain] in Hc. destruct Hc as [Hq Hc]. pose proof (set_bl_nil _ _ Hq) as Hq0. cbn beta iota in Hq0.
-    destruct (chain_clist (([], v0, b0, s0) :: es) (x5d :: r)) as [E Wl]; [discriminate|cbn [chain]; split; [exact Hq0|exact Hc]|reflexivity|].
+    destruct (chain_clist (([], v0, b0, s0) :: es) (x5d :: r)) as [E Wl]; [discriminate|reflexivity|cbn [chain]; split; [exact Hq0|exact Hc]|reflexivity|].
     cbn [prl fold_right pr_lel pr_blank to_clist pr_clist] in E. cbn [prl fold_right pr_lel].
     exists (CCList bl0 (to_clist ((bl0, v0, b0, s0) :: es))). unfold constP.
     cbn [pr_const erase_const cok_const wf_const to_clist pr_clist]. change sym_clist_open with (txt "["). change (txt "]" ++ r) with (x5d :: r).
-    split; [f_equal; f_equal; exact E|]. split; [|split; [|discriminate]].
+    split; [f_equal; f_equal; exact E|]. split; [|split; [split; [|discriminate]|reflexivity]].
     + f_equal. clear. cbn [map erase_clist fst snd]. f_equal.
       induction es as [|[[[? ?] ?] ?] es IH]; cbn [map to_clist erase_clist fst snd]; [reflexivity|]. now rewrite IH.
-    + intros Hok. cbn [to_clist] in Wl. rewrite (Wl Hok). destruct Hq as [[_ Hnn] [Kl _]]. rewrite (blank_ok_nonnil _ _ Kl Hnn). reflexivity.
+    + intros Hok. cbn [to_clist] in Wl. rewrite (Wl Hok). destruct Hq as [[[_ Hnn] _] [Kl _]]. rewrite (blank_ok_nonnil _ _ Kl Hnn). reflexivity.
 Qed.
 
 Lemma set_bl_nil_m (e : mel) r : melQ e r -> match e with (bl, key, b1, b2, v, b3, s) => melQ ([], key, b1, b2, v, b3, s) r end.
@@ -196,7 +204,8 @@ Proof.
   change (sym_cmap_close ++ r) with (x7d :: r) in *.
   destruct es as [|[[[[[[bl0 k0] b10] b20] v0] b30] s0] es].
   - cbn [prl fold_right map]. exists (CCMap bc CMNil). unfold constP. cbn [pr_const pr_cmapl erase_const erase_cmapl cok_const wf_const wf_cmapl].
-    change sym_cmap_open with (txt "{"). change (txt "}" ++ r) with (x7d :: r). repeat split; try discriminate.
+    change sym_cmap_open with (txt "{"). change (txt "}" ++ r) with (x7d :: r). split; [reflexivity|]. split; [reflexivity|].
+    split; [split; [|discriminate]|reflexivity].
     intros _. rewrite (blank_ok_nonnil _ _ Kc) by discriminate. reflexivity.
   - assert (Ebc : bc = []).
     { assert (Hn : noblank (pr_blank bc (x7d :: r))).
@@ -208,40 +217,99 @@ Proof.
       destruct Kc as [Kc|[Kc _]]; [|discriminate]. pose proof (noblank_pr_blank (at0 :: bc) (x7d :: r) Kc eq_refl Hn). discriminate. }
     subst bc. cbn [pr_blank] in *.
     cbn [chain] in Hc. destruct Hc as [Hq Hc]. pose proof (set_bl_nil_m _ _ Hq) as Hq0. cbn beta iota in Hq0.
-    destruct (chain_cmapl (([], k0, b10, b20, v0, b30, s0) :: es) (x7d :: r)) as [E Wl]; [discriminate|cbn [chain]; split; [exact Hq0|exact Hc]|reflexivity|].
+    destruct (chain_cmapl (([], k0, b10, b20, v0, b30, s0) :: es) (x7d :: r)) as [E Wl]; [discriminate|reflexivity|cbn [chain]; split; [exact Hq0|exact Hc]|reflexivity|].
     cbn [prl fold_right pr_mel pr_blank to_cmapl pr_cmapl] in E. cbn [prl fold_right pr_mel].
     exists (CCMap bl0 (to_cmapl ((bl0, k0, b10, b20, v0, b30, s0) :: es))). unfold constP.
     cbn [pr_const erase_const cok_const wf_const to_cmapl pr_cmapl]. change sym_cmap_open with (txt "{"). change (txt "}" ++ r) with (x7d :: r).
-    split; [f_equal; f_equal; exact E|]. split; [|split; [|discriminate]].
+    split; [f_equal; f_equal; exact E|]. split; [|split; [split; [|discriminate]|reflexivity]].
     + f_equal. clear. cbn [map erase_cmapl]. f_equal.
       induction es as [|[[[[[[? ?] ?] ?] ?] ?] ?] es IH]; cbn [map to_cmapl erase_cmapl]; [reflexivity|]. now rewrite IH.
-    + intros Hok. cbn [to_cmapl] in Wl. rewrite (Wl Hok). destruct Hq as [[_ Hnn] [Kl _]]. rewrite (blank_ok_nonnil _ _ Kl Hnn). reflexivity.
+    + intros Hok. cbn [to_cmapl] in Wl. rewrite (Wl Hok). destruct Hq as [[[_ Hnn] _] [Kl _]]. rewrite (blank_ok_nonnil _ _ Kl Hnn). reflexivity.
 Qed.
 
 End Elems.
 
+(* [-] digits followed by '.' or by an exponent: the double alternative does not answer Error *)
+Lemma dbl_err_inner i : is_perr (p_double_constant lf i) -> is_perr (dbl_inner lf i).
+Proof.
+  rewrite p_dbl_eq. unfold map_res, recognize. destruct (dbl_inner lf i); cbn; auto.
+Qed.
+
+Lemma opt_digit1_ok i : exists r o, opt digit1 i = POk r o.
+Proof.
+  unfold opt, digit1, span1. destruct (span is_digit i) as [p r]. destruct (is_nil p); eauto.
+Qed.
+
+Lemma int_dbl_nperr c r : wf_int c = true -> int_stops c r = true -> int_not_double c r = false ->
+  nperr (p_double_constant lf (pr_int c r)).
+Proof.
+  intros Hw Hst Hnd C. apply dbl_err_inner in C. destruct c as [n hex ds]. unfold wf_int, int_stops, int_not_double, pr_int in *.
+  cbn [ci_minus ci_hex ci_digits] in *. destruct hex; [discriminate|]. cbn [orb app] in *.
+  apply orb_false_elim in Hnd. destruct Hnd as [Hn Hnd]. apply Nat.leb_gt in Hn. apply negb_false_iff in Hnd.
+  bsplit Hw. apply andb_prop in Hst. destruct Hst as [Hst _]. apply negb_true_iff in Hst.
+  assert (Hne : ds <> []) by (intros ->; discriminate Hw).
+  assert (Ed : digit1 (ds ++ r) = POk r ds) by (apply digit1_ok; auto; now apply hd_is_sat).
+  (* the three alternatives on ds ++ r *)
+  assert (A : nperr (alt (dbl_alts lf) (ds ++ r))).
+  { unfold dbl_alts. destruct r as [|b r']; [discriminate|]. cbn [hd_is] in Hnd. destruct (Byte.eqb b x2e) eqn:Eb.
+    - apply byte_dec_bl in Eb. subst b. cbn [alt]. unfold dbl_a at 1. rewrite Ed. cbn [pbind].
+      change sym_dbl_dot_a with [x2e]. change (x2e :: r') with ([x2e] ++ r'). rewrite tag_ok. cbn [pbind].
+      destruct (opt_digit1_ok r') as [r2 [o ->]]. cbn [pbind].
+      unfold opt. destruct (p_exponent lf sym_dbl_exp_a r2); cbn [pbind]; intros K; exact K.
+    - cbn [orb] in Hnd. cbn [alt].
+      assert (Ta : is_perr (tag [x2e] (b :: r'))) by (apply tag_hd_ne; exact Eb).
+      unfold dbl_a at 1. rewrite Ed. cbn [pbind]. change sym_dbl_dot_a with [x2e].
+      destruct (tag [x2e] (b :: r')) eqn:ET; cbn in Ta; try contradiction. cbn [pbind].
+      unfold dbl_b at 1. rewrite (opt_ok digit1 _ _ _ Ed). cbn [pbind]. change sym_dbl_dot_b with [x2e]. rewrite ET. cbn [pbind].
+      unfold dbl_c. rewrite Ed. cbn [pbind].
+      exact (exp_starts_nperr lf sym_dbl_exp_c (b :: r') eq_refl Hnd). }
+  assert (Hd0 : exists d ds', ds = d :: ds' /\ is_digit d = true).
+  { destruct ds as [|d ds']; [contradiction|]. exists d, ds'. split; [reflexivity|]. cbn [forallb] in W0. now apply andb_prop in W0. }
+  destruct Hd0 as [d [ds' [Eds Hd]]].
+  assert (Tm : is_perr (tag sym_dbl_minus (ds ++ r))).
+  { rewrite Eds. cbn [app]. apply tag_hd_ne. revert Hd. clear. destruct d; vm_compute; intro H; try reflexivity; discriminate H. }
+  assert (Tp : is_perr (tag sym_dbl_plus (ds ++ r))).
+  { rewrite Eds. cbn [app]. apply tag_hd_ne. revert Hd. clear. destruct d; vm_compute; intro H; try reflexivity; discriminate H. }
+  unfold dbl_inner in C. destruct n as [|[|n]]; [| |lia]; cbn [minus_run] in C.
+  - rewrite (opt_err _ _ Tm) in C. cbn [pbind] in C. rewrite (opt_err _ _ Tp) in C. cbn [pbind] in C. exact (A C).
+  - change (x2d :: ds ++ r) with (sym_dbl_minus ++ ds ++ r) in C. rewrite (opt_ok _ _ _ _ (tag_ok sym_dbl_minus _)) in C. cbn [pbind] in C.
+    rewrite (opt_err _ _ Tp) in C. cbn [pbind] in C. exact (A C).
+Qed.
+
+Lemma nid_wordch r : nid r = true -> hd_is wordch r = false.
+Proof. intros H. apply hd_sat_is. exact H. Qed.
+
 Theorem const_inv : forall d i r v, p_const_value lf d i = POk r v -> exists c, i = pr_const c r /\ erase_const c = v /\ constP c r.
 Proof.
   induction d as [|d IH]; intros i r v H; [discriminate|]. rewrite p_cv_eq in H.
-  repeat (apply alt_cons_inv in H; destruct H as [H|[_ H]]); [..|apply alt_one_inv in H].
+  apply alt_cons_inv in H. destruct H as [H|[_ H]]; [|apply alt_cons_inv in H; destruct H as [H|[_ H]];
+    [|apply alt_cons_inv in H; destruct H as [H|[_ H]]; [|apply alt_cons_inv in H; destruct H as [H|[_ H]];
+    [|apply alt_cons_inv in H; destruct H as [H|[Hdbl H]]; [|apply alt_cons_inv in H; destruct H as [H|[_ H]];
+    [|apply alt_cons_inv in H; destruct H as [H|[_ H]]; [|apply alt_one_inv in H]]]]]]].
   - (* literal *)
     unfold cv_str in H. apply pmap_ok in H. destruct H as [s [H ->]]. destruct (literal_inv _ _ _ _ H) as [l [-> [<- Wl]]].
-    exists (CCLit l). unfold constP. cbn [pr_const erase_const cok_const wf_const]. repeat split; auto. unfold pr_lit. discriminate.
-  - unfold cv_true in H. binv H. inversion H; subst. destruct (keyword_inv _ _ _ _ E) as [-> _].
-    exists (CCBool true). unfold constP. cbn [pr_const erase_const cok_const wf_const]. repeat split; auto. discriminate.
-  - unfold cv_false in H. binv H. inversion H; subst. destruct (keyword_inv _ _ _ _ E) as [-> _].
-    exists (CCBool false). unfold constP. cbn [pr_const erase_const cok_const wf_const]. repeat split; auto. discriminate.
-  - unfold cv_path in H. apply pmap_ok in H. destruct H as [l [H ->]]. destruct (path_inv _ _ _ _ H) as [p [-> [<- [Wp _]]]].
-    exists (CCPath p). unfold constP. cbn [pr_const erase_const cok_const wf_const]. repeat split; auto.
+    exists (CCLit l). unfold constP. cbn [pr_const erase_const cok_const wf_const cont_ok]. repeat split; auto. unfold pr_lit. discriminate.
+  - unfold cv_true in H. binv H. inversion H; subst. destruct (keyword_inv _ _ _ _ E) as [-> Hk].
+    exists (CCBool true). unfold constP. cbn [pr_const erase_const cok_const wf_const cont_ok]. repeat split; auto; [discriminate|].
+    now rewrite (nid_wordch _ (kwend_nid _ Hk)).
+  - unfold cv_false in H. binv H. inversion H; subst. destruct (keyword_inv _ _ _ _ E) as [-> Hk].
+    exists (CCBool false). unfold constP. cbn [pr_const erase_const cok_const wf_const cont_ok]. repeat split; auto; [discriminate|].
+    now rewrite (nid_wordch _ (kwend_nid _ Hk)).
+  - unfold cv_path in H. apply pmap_ok in H. destruct H as [l [H ->]]. destruct (path_inv _ _ _ _ H) as [p [-> [<- [Wp [_ Hnr]]]]].
+    exists (CCPath p). unfold constP. cbn [pr_const erase_const cok_const wf_const cont_ok]. repeat split; auto.
     + intros Hh. now rewrite Wp, Hh.
     + unfold pr_path. unfold wf_path in Wp. apply andb_prop in Wp. destruct Wp as [Wh _].
       destruct (cp_head p); [discriminate Wh|cbn [app]; discriminate].
-  - unfold cv_dbl in H. apply pmap_ok in H. destruct H as [s [H ->]]. destruct (dbl_inv _ _ _ _ H) as [dd [-> [<- Wd]]].
-    exists (CCDbl dd). unfold constP. cbn [pr_const erase_const cok_const wf_const]. repeat split; auto.
+    + now rewrite (nid_wordch _ Hnr).
+  - unfold cv_dbl in H. apply pmap_ok in H. destruct H as [s [H ->]]. destruct (dbl_inv _ _ _ _ H) as [dd [-> [<- [Wd Sd]]]].
+    exists (CCDbl dd). unfold constP. cbn [pr_const erase_const cok_const wf_const cont_ok]. repeat split; auto.
     pose proof (len_const (CCDbl dd) r Wd) as L. cbn [pr_const] in L. intros E. rewrite E in L. cbn in L. lia.
-  - unfold cv_int in H. apply pmap_ok in H. destruct H as [z [H ->]]. destruct (int_inv _ _ _ _ H) as [ci [-> [<- [Wi _]]]].
-    exists (CCInt ci). unfold constP. cbn [pr_const erase_const cok_const wf_const]. repeat split; auto.
-    pose proof (len_const (CCInt ci) r Wi) as L. cbn [pr_const] in L. intros E. rewrite E in L. cbn in L. lia.
+  - unfold cv_int in H. apply pmap_ok in H. destruct H as [z [H ->]]. destruct (int_inv _ _ _ _ H) as [ci [-> [<- [Wi [_ Si]]]]].
+    exists (CCInt ci). unfold constP. cbn [pr_const erase_const cok_const wf_const cont_ok]. repeat split; auto.
+    + pose proof (len_const (CCInt ci) r Wi) as L. cbn [pr_const] in L. intros E. rewrite E in L. cbn in L. lia.
+    + rewrite Si. cbn [andb]. destruct (int_not_double ci r) eqn:En; [reflexivity|]. exfalso.
+      unfold cv_dbl in Hdbl. apply (int_dbl_nperr ci r Wi Si En). unfold pmap in Hdbl.
+      destruct (p_double_constant lf (pr_int ci r)); cbn in Hdbl |- *; auto.
   - exact (list_inv (p_const_value lf d) IH _ _ _ H).
   - exact (map_inv (p_const_value lf d) IH _ _ _ H).
 Qed.
